@@ -12,7 +12,10 @@ Search (real code only): canon(nodes(s)) == canon(ast.parse(s)) for generated pr
 the KIND of every node whose class goes by a name (function kinds, Enum / Class, Super / FuncCall, list / dict / callable / custom
 generic types, self / cls references, declaration / reference roles), computed on the CPython side from the ast alone; fixed
 near-miss programs (near_miss_programs) put every word the classification goes by, and every name that merely contains it, at
-every steering position on every run.
+every steering position on every run; non_steering_programs put the same words where they must NOT steer (later / star parameters,
+defaults, annotations, decorator arguments, labels, attribute names, type arguments); wide_programs have 104 (one: 1005) siblings
+of every kind (statements, members, parameters, arguments, elements, operands, bases, decorators, clauses) so that sibling indexes
+of three and four digits occur in every path the matchers and indexed lookups read.
 """
 from __future__ import annotations
 
@@ -629,6 +632,85 @@ def near_miss_programs() -> list[tuple[str, str]]:
 	return progs
 
 
+def non_steering_programs() -> list[tuple[str, str]]:
+	"""(name, source): the steering words at places where they must NOT steer — a later parameter, a `*` / `**` parameter, a default
+	value, an annotation, a decorator argument, an attribute name, an argument label, a type argument, a name bound in a class body
+	— so that a test that looks at any element instead of the steering one shows. One small program per construct (a construct
+	grammar.lark does not have only drops its own program)."""
+	S, C, I, E, SUP, L, D = STEER_THIS, STEER_CLS, STEER_DEF_NAME, STEER_BASE, STEER_SUPER, STEER_LIST, STEER_DICT
+	cm, sm = STEER_DECORATORS
+	progs: list[tuple[str, str]] = []
+
+	def add(name: str, lines: list[str]) -> None:
+		progs.append((f'non-steering-{name}', '\n'.join(lines) + '\n'))
+
+	# self / cls elsewhere in the parameter list of class functions, closures and module-level functions
+	for k, params in enumerate([f'x: int, {S}: int', f'x: int, y: int, {S}: int = 1', f'x: int, *{S}: int', f'x: int, **{S}: int', f'x: int, *a: int, **{S}: int',
+			f'x: int, y: int = {S}', f'x: {S}, y: {C}', f'x: int, {C}: int', f'x: Box[{S}], y: int = {S}.{S}', f'x, {S}', f'x, *{S}']):
+		add(f'param-{k}', ['class Q(Base):', '\t@' + sm, f'\tdef s({params}) -> int:', '\t\treturn x',
+			f'\tdef u({params}) -> int:', '\t\treturn x', '\t@' + cm, f'\tdef c({C}, {params}) -> int:', '\t\treturn x',
+			f'\tdef m({S}, {params.replace(S + ":", "z:").replace("*" + S, "*z").replace(", " + S, ", z")}) -> int:', f'\t\tdef inner({params}) -> int:', '\t\t\treturn x', '\t\treturn x',
+			f'def f({params}) -> int:', f'\tdef g({params}) -> int:', '\t\treturn x', '\treturn x'])
+	# the other words as parameter names, defaults, annotations and return types
+	add('param-words', ['class Q(Base):', f'\tdef {I}({S}, {I}: int, {cm}: int = 1, {E}: {E} = {E}) -> None:', f'\t\t{S}.{I} = {I}',
+		f'\tdef m({S}, {SUP}: int, {L}: {L}, {D}: {D} = {D}) -> {E}:', f'\t\treturn {SUP}', f'def f({cm}: int, {sm}: int, {I}: int) -> {cm}:', f'\treturn {I}'])
+	# classmethod / staticmethod as decorator ARGUMENTS, as attribute parts and as plain names
+	for k, deco in enumerate([f'deco({cm})', f'deco(key={cm})', f'pkg.wrap({sm}, 1)', f'deco({cm}, {sm})', f'deco([{cm}])', f'deco({cm}.x)', f'deco(x.{cm})']):
+		add(f'decorator-argument-{k}', [f'@{deco}', 'def top(p: int) -> int:', f'\t@{deco}', '\tdef inner(q: int) -> int:', '\t\treturn q', f'\treturn {cm}(inner)',
+			'class D(Base):', f'\t@{deco}', f'\tdef plain({S}, p: int) -> int:', f'\t\treturn {cm}', f'\t@{deco}', f'\tdef {I}({S}) -> None:', '\t\tpass',
+			f'\t@{deco}', f'\tdef helper(p: int) -> int:', '\t\treturn p'])
+	# Enum anywhere but among the bases: type argument of a base, decorator, class name, names bound in / used by the body
+	add('enum-elsewhere', [f'class K0(Box[{E}]):', '\tA = 1', f'class K1(Mixin, Box[int, {E}]):', '\tA = 1', f'@{E}', 'class K2(Mixin):', '\tA = 1', f'@deco({E})', 'class K3(Mixin):', '\tA = 1',
+		'class K4(Mixin):', f'\t{E} = 1', f'\tB: {E} = {E}', f'\tdef m({S}, {E}: int) -> {E}:', f'\t\treturn {E}', f'class {E}(Mixin):', '\tA = 1',
+		'class K5(Mixin):', f'\tclass {E}(Base):', '\t\tA = 1', f'\tclass Inner({E}, Base):', '\t\tA = 1', f'class K6(mod.{E}, {E}.sub):', '\tA = 1'])
+	# super / list / dict / self / cls as arguments, labels, attribute names, type arguments, plain annotations
+	add('call-words', [f't0 = f({SUP})', f't1 = a.{SUP}()', f't2 = f({SUP}={SUP}())', f't3 = {SUP}.{SUP}({SUP})', f't4 = f({S}=1, {C}=2, {I}=3)', f't5 = a.{S} + a.{C} + a.{I}.{E}',
+		f't6 = f()({SUP})', f't7 = ({SUP}())({SUP})', f't8 = {L}({D}({SUP}()))', f't9 = [{S}, {C}][{L}]'])
+	add('type-words', [f'a0: Box[{L}] = x', f'a1: Box[{L}, {D}] = x', f'a2: Callable[[{L}], {D}] = x', f'a3: {L} = x', f'a4: {D} | {L} | None = x', f'a5: pkg.{L}[int] = x',
+		f'a6: {L}[{D}[str, {L}[int]]] = x', f'a7: Box[{L}[int], {D}[str, int]] = x', f'def f(p: {L}, q: Box[{D}]) -> {L}:', '\tpass', f'class G({L}, Box[{D}]):', '\tpass'])
+	return progs
+
+
+def wide_programs() -> list[tuple[str, str]]:
+	"""(name, source): mechanically generated programs with MORE THAN A HUNDRED (one of them more than a thousand) siblings of one kind
+	— statements of a module / block / class body, parameters, arguments, elements, bases, decorators, clauses, operands — so that
+	sibling indexes of three and four digits occur in the paths every path-pattern matcher and every indexed child lookup works
+	with. The kinds and roles of all nodes are compared as everywhere else."""
+	n = 104
+	S, I, E = STEER_THIS, STEER_DEF_NAME, STEER_BASE
+	progs: list[tuple[str, str]] = []
+
+	def add(name: str, lines: list[str]) -> None:
+		progs.append((f'wide-{name}', '\n'.join(lines) + '\n'))
+
+	add('module-assignments-1005', [f'v{k} = {k}' if k % 7 else f'w{k}: int = v{k - 1 if k else 0}' for k in range(1005)])
+	add('module-defs-and-classes', [ln for k in range(n) for ln in (f'def f{k}(p{k}: int) -> int:', f'\tq{k} = p{k}', f'\treturn q{k}')]
+		+ [ln for k in range(n) for ln in (f'class C{k}(Mixin, {E}):' if k % 2 else f'class C{k}(Base):', f'\tA{k} = {k}')] + [f'r{k} = f{k}(C{k})' for k in range(n)])
+	add('class-body', ['class Wide(Base):', *[f'\tcv{k}: ClassVar[int] = {k}' for k in range(n)], *[f'\tfw{k}: int' for k in range(n)],
+		f'\tdef {I}({S}) -> None:', *[f'\t\t{S}.m{k}: int = {k}' if k % 2 else f'\t\t{S}.m{k} = {k}' for k in range(n)],
+		*[ln for k in range(n) for ln in (('\t@classmethod', f'\tdef g{k}(cls) -> int:') if k % 3 == 0 else ('\t@staticmethod', f'\tdef g{k}(p: int) -> int:') if k % 3 == 1 else (f'\tdef g{k}({S}) -> int:',)) + (f'\t\treturn {k}',)]])
+	add('function-body', ['def body(p: int) -> int:', *[f'\tt{k} = p' for k in range(n)], *[f'\tu{k}: int = t{k}' for k in range(n)], *[f'\tt{k} += u{k}' for k in range(n)],
+		*[ln for k in range(n) for ln in (f'\tdef c{k}(q: int) -> int:', f'\t\treturn q')], *[ln for k in range(n) for ln in (f'\tif t{k}:', f'\t\tz{k} = {k}')], '\treturn p'])
+	add('parameters-arguments', ['class P(Base):', f"\tdef m({S}, {', '.join(f'p{k}: int' for k in range(n))}, {', '.join(f'd{k}: int = {k}' for k in range(n))}) -> int:",
+		f"\t\treturn f({', '.join(f'p{k}' for k in range(n))}, {', '.join(f'k{k}=d{k}' for k in range(n))})",
+		f"def g({', '.join(f'p{k}' for k in range(n))}) -> int:", f"\treturn h({', '.join(f'p{k}' for k in range(n))})"])
+	add('displays', [f"xs = [{', '.join(f'a{k}' for k in range(n))}]", f"ts = ({', '.join(f'a{k}' for k in range(n))})", f"ds = {{{', '.join(f'a{k}: b{k}' for k in range(n))}}}",
+		f"ys = m[{', '.join(f'a{k}' for k in range(n))}]", f"{', '.join(f't{k}' for k in range(n))} = xs", f"for {', '.join(f'i{k}' for k in range(n))} in xs:", '\tpass',
+		f"zs = [{', '.join(f'lambda q{k}: q{k}' for k in range(n))}]", f"del {', '.join(f'a{k}' for k in range(n))}"])
+	add('operands', [f"s = {' + '.join(f'a{k}' for k in range(n))}", f"b = {' and '.join(f'a{k}' for k in range(n))}", f"o = {' or '.join(f'a{k}' for k in range(n))}",
+		f"c = {' < '.join(f'a{k}' for k in range(n))}", f"m = {' * '.join(f'a{k}' for k in range(n))}", f"x = {' | '.join(f'a{k}' for k in range(n))}",
+		f"u: {' | '.join(f'T{k}' for k in range(n))} = s", f"g: Box[{', '.join(f'T{k}' for k in range(n))}] = s", f"ch = a{''.join(f'.b{k}' for k in range(n))}", f"ca = f{''.join(f'(a{k})' for k in range(n))}"])
+	add('bases-decorators', [*[f'@deco{k}' for k in range(n)], f"class B({', '.join(f'M{k}' for k in range(n))}, {E}):", '\tA = 1',
+		'class D(Base):', *[f'\t@deco{k}({k})' for k in range(n)], '\t@classmethod', '\tdef c(cls) -> None:', '\t\tpass', *[f'\t@deco{k}' for k in range(n)], f'\tdef m({S}) -> None:', '\t\tpass'])
+	add('clauses', ['def cl(p: int) -> int:', '\tif a0:', '\t\tx0 = 0', *[ln for k in range(1, n) for ln in (f'\telif a{k}:', f'\t\tx{k} = {k}')], '\telse:', '\t\tpass', '\t\tpass',
+		'\ttry:', '\t\tpass', *[ln for k in range(n) for ln in (f'\texcept E{k} as e{k}:', f'\t\ty{k} = e{k}')],
+		f"\twith {', '.join(f'o{k}() as w{k}' for k in range(n))}:", '\t\tpass', '\treturn p', f"from pkg.sub import {', '.join(f'n{k} as m{k}' if k % 2 else f'n{k}' for k in range(n))}"][::-1][:1]
+		+ ['def cl(p: int) -> int:', '\tif a0:', '\t\tx0 = 0', *[ln for k in range(1, n) for ln in (f'\telif a{k}:', f'\t\tx{k} = {k}')], '\telse:', '\t\tpass', '\t\tpass',
+		'\ttry:', '\t\tpass', *[ln for k in range(n) for ln in (f'\texcept E{k} as e{k}:', f'\t\ty{k} = e{k}')],
+		f"\twith {', '.join(f'o{k}() as w{k}' for k in range(n))}:", '\t\tpass', '\treturn p'])
+	return progs
+
+
 class Gen:
 	"""Random programs of the common language, as source text. Structure is random; layout (tabs/spaces, blank lines, redundant
 	parentheses, line breaks inside brackets, comment lines) is random too. `conventional=True` keeps to the coding
@@ -1141,7 +1223,8 @@ def stream_classify(ctx: Ctx) -> Stream:
 	for i in range(n):
 		sources.append((Gen(rng, 2 + i % 4).module(), 'generated'))
 	sources += [(s, 'special') for s in SPECIAL_PROGRAMS]
-	sources += [(s, 'special-near-miss') for _, s in near_miss_programs()]
+	sources += [(s, 'special-near-miss') for _, s in near_miss_programs() + non_steering_programs()]
+	sources += [(s, 'special-wide') for _, s in wide_programs()]
 	kw_items = keyword_names_program(app)
 	for k in range(0, len(kw_items), 40):
 		sources.append(('\n'.join(kw_items[k:k + 40]) + '\n', 'special-keywords'))
@@ -1161,7 +1244,7 @@ def stream_classify(ctx: Ctx) -> Stream:
 				nodes = ep._Node__nodes
 				root = real_parse(app, src)
 				pf = ASTFinder().full_pathfy(root)
-				if len(pf) > 1800:
+				if len(pf) > (12000 if kind == 'special-wide' else 1800):  # the mechanical wide programs are compared whole (the model reads them in < 1 s)
 					hist['skipped-too-large'] += 1
 					continue
 				parts = []
@@ -1345,6 +1428,7 @@ MARK_WHAT = {
 	'classify:method-without-self-name': 'a function of a class body whose first parameter is not called self is classified Function (Python: instance method whatever the name)',
 	'classify:staticmethod-taking-self': 'a @staticmethod whose first parameter is called self is classified Method (Python: plain function)',
 	'classify:classmethod-outside-class': '@classmethod on a def that is not in a class body is classified ClassMethod (Python: a decorated function / closure)',
+	'classify:super-by-callee-text': 'a call whose callee is itself an argument-less call of super (`super()()`, `(super())(x)`) is classified Super: Super.match_feature compares the callee\'s token text, which is `super` again (Python: an ordinary call of the proxy object)',
 	'classify:class-function-under-block': 'a def nested in an if/try/with/loop block of a class body is classified Closure (Python: it is still a function of the class)',
 }
 
@@ -1608,6 +1692,10 @@ class PyCanon:
 		if isinstance(n, ast.Call):
 			# `super(…)`: a call whose callee is the bare name super
 			ckind = 'Super' if isinstance(n.func, ast.Name) and n.func.id == STEER_SUPER else 'FuncCall'
+			if ckind == 'FuncCall' and self.only_super(n.func):
+				# `super()()`: the callee is itself a call; tranp goes by the callee's token text, which is `super` again
+				self.mark('classify:super-by-callee-text', n)
+				ckind = 'Super'
 			return sx('Call', ckind, e(n.func), self.args(n))
 		if isinstance(n, ast.Subscript):
 			sl = n.slice
@@ -1653,6 +1741,12 @@ class PyCanon:
 				return sx('Name', 'yield', 'ref')
 			return sx('Yield', e(n.value))
 		raise CanonError(f'expr {type(n).__name__}')
+
+	def only_super(self, n: ast.expr) -> bool:
+		"""an expression whose only token (brackets aside) is the word super: `super`, `super()`, `super()()` …"""
+		if isinstance(n, ast.Name):
+			return n.id == STEER_SUPER
+		return isinstance(n, ast.Call) and not n.args and not n.keywords and self.only_super(n.func)
 
 	def generators(self, gens: list[ast.comprehension]) -> tuple[list[str], str | None]:
 		fors = []
@@ -2078,7 +2172,7 @@ def search_canon(ctx: Ctx) -> SearchResult:
 	corpus = [c for c in load_corpus() if c.get('stream') == 'search']
 	corpus_keys = {f"corpus:{c['file']}": c.get('key') for c in corpus}
 	sources: list[tuple[str, str]] = [(c['source'], f"corpus:{c['file']}") for c in corpus]
-	sources += [(src, f'fixed:{nm}') for nm, src in near_miss_programs()]
+	sources += [(src, f'fixed:{nm}') for nm, src in near_miss_programs() + non_steering_programs() + wide_programs()]
 	n = ctx.scale(500, 9000)
 	for i in range(n):
 		g = Gen(rng, 1 + i % 5, rich=True)
